@@ -24,7 +24,8 @@ open Logrange.Rd Logrange.Generated.C03
 structural fact of the two query loops); regenerated from /repo on every run. -/
 theorem code_shape_facts :
     offsetPositiveBranchSettles = true ∧ fiteratorSetBackwardDropsCache = true ∧ backwardEofKeepsPos = true ∧
-    fwdEndPosFromDecisionCount = true ∧ bothLoopsClampAndCount = true ∧ cacheIsWaitOrClamped = true := by decide
+    fwdEndPosFromDecisionCount = true ∧ bothLoopsClampAndCount = true ∧ cacheIsWaitOrClamped = true ∧
+    newCursorSortsSources = true ∧ emptyCursorKeepsState = true := by decide
 
 /-- widths of the position text as the code has them now -/
 theorem pos_widths_generated :
@@ -127,8 +128,8 @@ flag, the provider (held cursor found by request id + `ApplyState`, new cursor o
 an un-held cursor) and a client that follows / zeroes the id / sends only the position / meets an evicted cursor -/
 def paging_query_level_stmt : Prop :=
   ∀ (j : Journal) (w : Bool) (l0 : Nat) (steps : List Step), Sorted j →
-    (∀ s ∈ steps, s.store' = none ∧ s.perm = []) →
-    (pages queryMaxLimit (onePart j) [] { query := some (qAll w), limit := l0, wait := true } steps).flatten
+    (∀ s ∈ steps, s.store' = none) →
+    (pages queryMaxLimit (onePart j) { query := some (qAll w), limit := l0, wait := true } steps).flatten
       = (((flat j).filter (keepOf w)).take
           ((l0 :: steps.map (·.limit)).map (fun l => min l queryMaxLimit)).sum)
 
@@ -164,7 +165,7 @@ every resume choice (follow / evicted / id zeroed / position only) -/
 theorem paging_j3 :
     ∀ w ∈ [false, true], ∀ l0 ∈ [1, 2, 3], ∀ l1 ∈ [1, 2, 3], ∀ l2 ∈ [1, 3],
     ∀ r1 ∈ [Resume.follow, .evicted, .zeroId, .posOnly], ∀ r2 ∈ [Resume.follow, .evicted, .zeroId, .posOnly],
-      (pages queryMaxLimit (onePart j3) [] { query := some (qAll w), limit := l0, wait := true }
+      (pages queryMaxLimit (onePart j3) { query := some (qAll w), limit := l0, wait := true }
           (stepsOf [l1, l2] [r1, r2])).flatten
         = ((flat j3).filter (keepOf w)).take (l0 + l1 + l2) := by decide +kernel
 
@@ -175,9 +176,9 @@ the repeated answer differs from page 2 — it starts with the event the fiterat
 theorem cex_stale_buffer_same_id_older_pos :
     let q : Qry := qAll true
     let j : Journal := [⟨10, [r 0, r 1, r 2, r 3, r 4, r 5], 0, maxU32⟩]
-    let (s1, p1) := query queryMaxLimit (onePart j) [] { query := some q, limit := 2, wait := true }
-    let (s2, p2) := query queryMaxLimit s1 [] p1.next
-    let (_, p3) := query queryMaxLimit s2 [] p1.next
+    let (s1, p1) := query queryMaxLimit (onePart j) { query := some q, limit := 2, wait := true }
+    let (s2, p2) := query queryMaxLimit s1 p1.next
+    let (_, p3) := query queryMaxLimit s2 p1.next
     p2.events.map (·.lbl) = [2, 3] ∧ p3.events.map (·.lbl) = [4, 3] := by decide +kernel
 
 /-- #22 on a merged cursor WITHOUT any filter: the `Mixer`'s selected head survives `ApplyState` as well. Two
@@ -188,32 +189,42 @@ theorem cex_stale_mixer_head_merged :
     let rt (l : Nat) (t : Int) : Rec := { lbl := l, ts := t }
     let s0 : Server := { store := [(0, [⟨10, [rt 0 10, rt 1 12, rt 2 14], 0, maxU32⟩]),
                                     (1, [⟨10, [rt 100000 11, rt 100001 13], 0, maxU32⟩])] }
-    let (s1, p1) := query queryMaxLimit s0 [0, 1] { query := some q, limit := 2, wait := true }
-    let (s2, p2) := query queryMaxLimit s1 [0, 1] p1.next
-    let (_, p3) := query queryMaxLimit s2 [0, 1] p1.next
+    let (s1, p1) := query queryMaxLimit s0 { query := some q, limit := 2, wait := true }
+    let (s2, p2) := query queryMaxLimit s1 p1.next
+    let (_, p3) := query queryMaxLimit s2 p1.next
     p1.events.map (·.lbl) = [0, 100000] ∧ p2.events.map (·.lbl) = [1, 100001] ∧
       p3.events.map (·.lbl) = [2, 100001] := by decide +kernel
 
-/-- #35: a first page served while no partition matches answers with an empty next request; following it
-never delivers anything once the partition exists, the original request does. -/
-theorem cex_empty_first_page_loses_query :
+/-! ### a chain that starts while no partition matches (finding #35, repaired by a8a4a54) -/
+
+/-- **no matching partition: the answer hands the request back** — no events, and the next request carries the
+same query and position with request id 0 (and the clamped limit), for EVERY store without a matching partition. -/
+theorem empty_page_keeps_query (M : Nat) (srv : Server) (req : Req) (q : Qry) (hq : req.query = some q)
+    (hid : req.id = 0) (hno : resolve srv.store q = []) :
+    (query M srv req).2.events = [] ∧ (query M srv req).2.next.query = some q ∧
+    (query M srv req).2.next.pos = req.pos ∧ (query M srv req).2.next.id = 0 ∧
+    ((query M srv req).1.store = srv.store) := by
+  simp [query, hq, hid, newCur, hno, sortSrcs]
+
+/-- … so following it is asking the original question again: once the partition exists, the followed chain
+delivers its events (the old witness of #35, now passing). -/
+theorem chain_started_empty_delivers :
     let q : Qry := qAll false
     let j : Journal := [⟨10, [r 0, r 1], 0, maxU32⟩]
-    let (s1, p1) := query queryMaxLimit ({} : Server) [] { query := some q, limit := 5 }
+    let (s1, p1) := query queryMaxLimit ({} : Server) { query := some q, limit := 5 }
     let s1' : Server := { s1 with store := [(0, j)] }
-    let (_, p2) := query queryMaxLimit s1' [] { p1.next with limit := 5 }
-    let (_, p2') := query queryMaxLimit s1' [] { query := some q, limit := 5 }
-    p1.next.query = none ∧ p2.events = [] ∧ p2.next.query = none ∧ p2'.events.map (·.lbl) = [0, 1] := by decide +kernel
+    let (_, p2) := query queryMaxLimit s1' { p1.next with limit := 5 }
+    p1.events = [] ∧ p1.next.query = some q ∧ p2.events.map (·.lbl) = [0, 1] := by decide +kernel
 
 /-- #40: a held cursor never sees a partition created after it; the same chain resumed by position only does. -/
 theorem cex_held_cursor_misses_new_partition :
     let q : Qry := qAll false
     let j0 : Journal := [⟨10, [r 0, r 1], 0, maxU32⟩]
     let j1 : Journal := [⟨10, [r 100000, r 100001], 0, maxU32⟩]
-    let (s1, p1) := query queryMaxLimit (onePart j0) [] { query := some q, limit := 1, wait := true }
+    let (s1, p1) := query queryMaxLimit (onePart j0) { query := some q, limit := 1, wait := true }
     let s1' : Server := { s1 with store := [(0, j0), (1, j1)] }
-    let (_, p2) := query queryMaxLimit s1' [0, 1] { p1.next with limit := 10 }
-    let (_, p2') := query queryMaxLimit s1' [0, 1] { query := some q, pos := p1.next.pos, limit := 10 }
+    let (_, p2) := query queryMaxLimit s1' { p1.next with limit := 10 }
+    let (_, p2') := query queryMaxLimit s1' { query := some q, pos := p1.next.pos, limit := 10 }
     p2.events.map (·.lbl) = [1] ∧ p2'.events.map (·.lbl) = [1, 100000, 100001] := by decide +kernel
 
 end Logrange.Props.C03
